@@ -632,3 +632,68 @@ func init() {
 	All["C11"].Rules += " R10"
 	addLevel("C11", "the three builders of a shard key (line-protocol rows, record rows, query conditions) walk the sorted shard-key names and the sorted tags as a two-cursor merge in which the cursor of the smaller side advances.")
 }
+
+func init() {
+	old := All["C11"].Run
+	All["C11"].Run = func(c *an.Ctx) {
+		old(c)
+		c11rangeMembershipShared(c)
+		c11everyShardDistributed(c)
+	}
+	All["C11"].Rules += " R11 R12"
+	addLevel("C11", "range sharding: the write side picks the shard whose ShardInfo.Contain holds (the predicate the read side's ContainPrefix mirrors), not by comparisons of its own; the split of a partition's mapped shards into concurrent sub-queries hands out every shard (a loop over the whole list, one hand-out per element).")
+}
+
+// c11rangeMembershipShared — C11.R11.  Key ranges of range-sharded groups are half-open [Min, Max).
+// The write side (DestShard) and the read side (TargetShards → ContainPrefix) agree on the
+// boundary only as long as both go through the ShardInfo predicates.
+func c11rangeMembershipShared(c *an.Ctx) {
+	const M = "lib/util/lifted/influx/meta"
+	r := c.Rule("C11.R11", "K-GUARD(siblings)", M+":(*ShardGroupInfo).DestShard returns a shard only where ShardInfo.Contain(key) holds")
+	f := fn(r, M+":ShardGroupInfo.DestShard")
+	if f == nil {
+		return
+	}
+	rets := f.Find(an.MReturn("of a shard", func(g *an.Fn, rs *ast.ReturnStmt) bool {
+		return len(rs.Results) == 1 && !an.IsNilIdent(g.Info, rs.Results[0])
+	}))
+	f.Guarded(r, rets, "shard returned only if Contain(key)", an.AtomLike(`\.Contain\(p0\)$`, true))
+}
+
+// c11everyShardDistributed — C11.R12.  The shards mapped for one partition are split into at most
+// N concurrent sub-queries.  Every mapped shard must end up in one of them: the distribution is
+// a loop over the whole list with one hand-out per element (a split by len/N drops the
+// remainder).
+func c11everyShardDistributed(c *an.Ctx) {
+	r := c.Rule("C11.R12", "K-LOOPSELECT", "coordinator:distShardsByMaxConcurrency — every mapped shard of the partition is handed to a sub-query")
+	f := fn(r, "coordinator:distShardsByMaxConcurrency")
+	if f == nil {
+		return
+	}
+	// the hand-outs: append(<…>.ShardInfos, p1[…]) inside a loop bounded by len(p1) / ranging over p1
+	hand := f.Find(an.MNode("append(…, shardInfos[…])", func(g *an.Fn, m ast.Node) bool {
+		ce, ok := m.(*ast.CallExpr)
+		if !ok || len(ce.Args) != 2 {
+			return false
+		}
+		if id, ok := ce.Fun.(*ast.Ident); !ok || id.Name != "append" {
+			return false
+		}
+		ix, ok := ast.Unparen(ce.Args[1]).(*ast.IndexExpr)
+		if !ok || g.Canon(ix.X) != "p1" {
+			return false
+		}
+		switch lp := loopOf(g, ce).(type) {
+		case *ast.RangeStmt:
+			return g.Canon(lp.X) == "p1"
+		case *ast.ForStmt:
+			return lp.Cond != nil && strings.Contains(g.Canon(lp.Cond), "len(p1)") && !strings.Contains(g.Canon(lp.Cond), "/")
+		}
+		return false
+	}))
+	if hand.Len() == 0 {
+		r.Fail(f.Name+": hand-out", c.P.Pos(f.Body.Pos()), "no loop over the whole list of mapped shards that hands each element to a sub-query was found: a split into runs of len/N shards leaves the remainder in the shard map but never sends it to a store")
+		return
+	}
+	f.LoopVisitsAll(r, hand, "every shard of the list is handed out (one per iteration, no early exit)")
+}
